@@ -54,6 +54,12 @@ RULE = (
     'or some batch is entirely padding (empty_or_fully_masked: every case); a '
     'stat_laws case when some weight <= 0 sits next to a non-zero accum or the '
     'three operands are not all equal. distinct = distinct canonical case JSON.')
+RULE += (
+    ' '
+    'Later widenings: sibling models sharing metric names; ModelEvaluator on the debug and pm'
+    'ap backends (pmap: one batch size and one feature set, optionally next to a client with '
+    'twice as many batches); client batches as one-shot iterators; mapping-valued predictions'
+    ' read through pred_key; a check of its own for a real example with an infinite loss.')
 ASSUMPTIONS = [
     'scores are finite dyadic rationals with |score| <= 1024 (cross entropy is '
     'NaN by construction for infinite logits); labels lie in [0, num_classes), '
